@@ -65,7 +65,12 @@ def r1(ctx):
     ok = len(pk) == 1 and pk[0].func.attr == "parse_known_args"
     ctx.check(ok, "config:ArgumentParser.parse_args:parse_known_args", "arguments must be parsed with parse_known_args (unknown options are collected, not fatal)", f.loc())
     if ok:
-        a0 = u(pk[0].args[0]) if pk[0].args else ""
+        a0n = pk[0].args[0] if pk[0].args else None
+        if isinstance(a0n, ast.Name):
+            defs = [x.value for x in walk_no_nested(f.node) if isinstance(x, ast.Assign) and u(x.targets[0]) == a0n.id]
+            if len(defs) == 1:
+                a0n = defs[0]
+        a0 = u(a0n) if a0n is not None else ""
         ctx.check(a0 == f"{f.params[1]} + self.compiler.options", "config:ArgumentParser.parse_args:argv-then-implicit", f"the vector parsed must be the command's arguments followed by the compiler's implicit options: {a0}", f.loc(pk[0]))
     warn = [s for s in walk_no_nested(f.node) if isinstance(s, ast.If) and u(s.test) == "unrecognized" and any(isinstance(x, ast.Call) and u(x.func) == "log.warning" for x in ast.walk(s))]
     ctx.check(len(warn) == 1, "config:ArgumentParser.parse_args:unrecognized-warned", "unrecognised arguments must be reported with a warning", f.loc())
